@@ -455,7 +455,7 @@ func TestVerifC05(t *testing.T) {
 }
 
 func TestVerifC05S(t *testing.T) {
-	r := vres.Open("C05", "S")
+	r := vres.Open("C05", racePart("S"))
 	defer func() {
 		if err := r.Close(); err != nil {
 			t.Fatal(err)
